@@ -48,7 +48,7 @@ static scpi_interface_t itf = { if_error, if_write, if_control, if_flush, NULL }
 static const scpi_command_t cmds[] = {
     {"*CLS", SCPI_CoreCls, 0}, {"*ESE", SCPI_CoreEse, 0}, {"*ESE?", SCPI_CoreEseQ, 0}, {"*ESR?", SCPI_CoreEsrQ, 0},
     {"*OPC", SCPI_CoreOpc, 0}, {"*OPC?", SCPI_CoreOpcQ, 0}, {"*SRE", SCPI_CoreSre, 0}, {"*SRE?", SCPI_CoreSreQ, 0},
-    {"*STB?", SCPI_CoreStbQ, 0},
+    {"*STB?", SCPI_CoreStbQ, 0}, {"*RST", SCPI_CoreRst, 0}, {"*TST?", SCPI_CoreTstQ, 0}, {"*WAI", SCPI_CoreWai, 0}, {"*IDN?", SCPI_CoreIdnQ, 0}, {"SYSTem:VERSion?", SCPI_SystemVersionQ, 0},
     {"SYSTem:ERRor[:NEXT]?", SCPI_SystemErrorNextQ, 0}, {"SYSTem:ERRor:COUNt?", SCPI_SystemErrorCountQ, 0},
     {"STATus:QUEStionable[:EVENt]?", SCPI_StatusQuestionableEventQ, 0},
     {"STATus:QUEStionable:CONDition?", SCPI_StatusQuestionableConditionQ, 0},
@@ -129,6 +129,7 @@ static void build_ops(void) {
     add_op(OP_PUSH, 0, 0, -900, NULL);     /* no class */
     add_op(OP_POP, 0, 0, 0, NULL);
     add_op(OP_CLEAR, 0, 0, 0, NULL);
+    add_op(OP_CMD, 0, 0, 0, "*RST;*WAI;*TST?;*IDN?;:SYST:VERS?\n");      /* commands that leave the status structure alone */
     add_op(OP_CMD, 0, 0, 0, "*CLS\n");
     add_op(OP_CMD, 0, 0, 0, "*ESR?\n");
     add_op(OP_CMD, 0, 0, 0, "*STB?\n");
